@@ -126,6 +126,26 @@ theorem C08_bytesC (p : Policy) (hp : PlainC p.ensureInit) (hs : p.ensureInit.ad
   rw [hb, tokenize_renderAllC toks hseg, textOf_coalesce, textOf_map_reread]
   simpa using htext
 
+/-- (per-input form)  **C08 (byte level), comments allowed or not**: the same for every policy without AllowUnsafe and
+    without a raw-text element on its allowlist — comments that come through are not text -/
+theorem C08_bytesC_on (p : Policy) (hs : p.ensureInit.addSpaces = false)
+    (input : Bytes) (hp : PlainOn p.ensureInit (tokenize input)) (hwn : wellNested (tokenize input) = true)
+    (hnos : ∀ t ∈ tokenize input, isTag t = true → isScriptOrStyle t.data = false) :
+    textOf (tokenize (p.sanitizeCore input)) = visibleTextAux p.ensureInit 0 [] (tokenize input) := by
+  obtain ⟨ws, toks, hrun, ⟨hbytes, hprov⟩, htext⟩ := C08_events p hp.noUnsafe hs input hwn hnos
+  have hseg : ∀ k ∈ toks, SegOKC k := by
+    intro k hk
+    obtain ⟨t, ht, hpr⟩ := hprov k hk
+    exact prov_segOKOn (hp.noRaw t ht) (tokenize_wf input t ht) hpr
+  have hb : p.sanitizeCore input = renderAll toks := by
+    unfold Policy.sanitizeCore Policy.sanitizeTokens
+    rw [hrun]
+    simp only
+    unfold TokBytes at hbytes
+    rw [hbytes, flatten_map_render]
+  rw [hb, tokenize_renderAllC toks hseg, textOf_coalesce, textOf_map_reread]
+  simpa using htext
+
 /-! ### with AddSpaceWhenStrippingTag -/
 
 /-- **C08 (event level), AddSpaceWhenStrippingTag or not**: for every policy without AllowUnsafe and every
@@ -153,6 +173,27 @@ theorem C08_bytes_spaces (p : Policy) (hp : PlainC p.ensureInit)
     intro k hk
     obtain ⟨t, ht, hpr⟩ := hprov k hk
     exact prov_segOKC hp (tokenize_wf input t ht) hpr
+  have hb : p.sanitizeCore input = renderAll toks := by
+    unfold Policy.sanitizeCore Policy.sanitizeTokens
+    rw [hrun]
+    simp only
+    unfold TokBytes at hbytes
+    rw [hbytes, flatten_map_render]
+  rw [hb, tokenize_renderAllC toks hseg, textOf_coalesce, textOf_map_reread]
+  simpa using htext
+
+/-- (per-input form)  **C08 (byte level), AddSpaceWhenStrippingTag or not, comments allowed or not**: the text an HTML
+    tokenizer reads from the returned bytes is, space characters aside, the input's text outside every
+    disallowed skip-content element — nothing inside one appears, everything outside does -/
+theorem C08_bytes_spaces_on (p : Policy)
+    (input : Bytes) (hp : PlainOn p.ensureInit (tokenize input)) (hwn : wellNested (tokenize input) = true)
+    (hnos : ∀ t ∈ tokenize input, isTag t = true → isScriptOrStyle t.data = false) :
+    noSp (textOf (tokenize (p.sanitizeCore input))) = noSp (visibleTextAux p.ensureInit 0 [] (tokenize input)) := by
+  obtain ⟨ws, toks, hrun, ⟨hbytes, hprov⟩, htext⟩ := C08_events_spaces p hp.noUnsafe input hwn hnos
+  have hseg : ∀ k ∈ toks, SegOKC k := by
+    intro k hk
+    obtain ⟨t, ht, hpr⟩ := hprov k hk
+    exact prov_segOKOn (hp.noRaw t ht) (tokenize_wf input t ht) hpr
   have hb : p.sanitizeCore input = renderAll toks := by
     unfold Policy.sanitizeCore Policy.sanitizeTokens
     rw [hrun]
